@@ -90,6 +90,55 @@ struct StaticFactories {
 };
 static const StaticFactories g_static_factories;
 
+// History independence: the specification's operations are functions of their arguments; whatever per-thread scratch
+// space the library keeps between calls (matrix holders, factory tables, evolution buffers) must not leak into results.
+// Before every second case the replayer runs a fixed set of calls at ANOTHER dimension (alternately the largest and the
+// smallest), so that any scratch state left over from a larger or a smaller problem is in place when the case runs.
+static void pollute(int dp) {
+  SU_vector id = SU_vector::Identity(dp), pr = SU_vector::Projector(dp, dp - 1), pp = SU_vector::PosProjector(dp, dp - 1),
+            np = SU_vector::NegProjector(dp, 1), g = SU_vector::Generator(dp, dp * dp - 1);
+  SU_vector x(dp);
+  for (int k = 0; k < dp * dp; k++) x[k] = 0.5 + 0.25 * k;
+  SU_vector h(dp);
+  for (int l = 1; l < dp; l++) h[dp * l + l] = 0.7 * l;
+  SU_vector y = x.Evolve(h, 0.9);
+  std::unique_ptr<double[]> buf(new double[h.GetEvolveBufferSize()]);
+  h.PrepareEvolve(buf.get(), 1.3);
+  y += x.Evolve(buf.get());
+  auto m = x.GetGSLMatrix();
+  SU_vector back(m.get());
+  Const par;
+  par.SetMixingAngle(0, 1, 0.4); par.SetPhase(0, 1, 0.3);
+  y.RotateToB1(par); y.RotateToB0(par);
+  auto U = par.GetTransformationMatrix(dp);
+  y = y.Rotate(U.get());
+  y = y.UTransform(U.get()); y = y.UDaggerTransform(U.get());
+  y = y.UTransform(h, gsl_complex_rect(0, 0.5));
+  y.Rotate(0, dp - 1, 0.3, 0.2);
+  y.WeightedRotation(par, x, par);
+  y = iCommutator(x, y) + ACommutator(x, pr) * 0.5 + id + pp + np + g;
+  SU_vector re = y.Real(), im = y.Imag(); y.Transpose();
+  volatile double sink = (x * y) + re[0] + im[0]; (void)sink;
+  y.GetEigenSystem(true);
+}
+
+// Selections and sign changes (negation, transposition, Real, Imag) commute EXACTLY with scaling by a power of two over the
+// whole range of finite doubles: components just below the overflow threshold and far below 1 must pass through unharmed.
+template <class F> static void range_exact(const std::string& what, const SU_vector& a, F f) {
+  double amax = 0;
+  for (unsigned k = 0; k < a.Size(); k++) amax = std::max(amax, std::fabs(a[k]));
+  if (!(amax > 0)) return;
+  SU_vector fa = f(a);
+  for (int e2 : {1023 - std::ilogb(amax), -1000}) {
+    double sc = std::ldexp(1.0, e2);
+    SU_vector as(a.Dim());
+    for (unsigned k = 0; k < a.Size(); k++) as[k] = a[k] * sc;      // exact: largest component lands in [2^1023, 2^1024)
+    SU_vector fs = f(as);
+    for (unsigned k = 0; k < a.Size(); k++)
+      if (!(fs[k] == fa[k] * sc)) { mismatch(what + (e2 > 0 ? ":near-DBL_MAX" : ":2^-1000") + ":comp" + std::to_string(k), std::fabs(fs[k] - fa[k] * sc), 0); break; }
+  }
+}
+
 static void set_params(Const& params, int d, const std::vector<long>& h) {
   // h = th[1..np] ++ ph[1..np] in the pair order (0,1),(0,2),(1,2),(0,3),...
   int np = d * (d - 1) / 2, q = 0;
@@ -120,6 +169,7 @@ int main(int argc, char** argv) {
     ncases++;
     cur_idx = idx; cur_op = op;
     try {
+      if (idx % 2 == 1) { int dp = ((idx / 2) % 2 == 0) ? (d == 6 ? 5 : 6) : (d == 2 ? 3 : 2); pollute(dp); }
       std::vector<double> ca = comps_from_matrix(A), cb = comps_from_matrix(B);
       double SA = norm1(ca), SB = norm1(cb);
       SU_vector a = vec_from_comps(ca, d), b = vec_from_comps(cb, d);
@@ -197,6 +247,7 @@ int main(int argc, char** argv) {
           expect_same("-rvalue", r3, r, 0); expect_same("-move(a)", r4, r, 0); expect_same("-(a+a)", r5, e5, 0); }
         for (int k = 0; k < d * d; k++) if (r[k] != -a[k]) { mismatch("-a:bits", 1, 0); break; }
         SU_vector r2; r2 = -a; expect_same("assign(-a)", r2, r, 0);
+        range_exact("-a", a, [](const SU_vector& v) { return SU_vector(-v); });
       } else if (op == "scale") {
         double x = (double)p[0];
         { SU_vector c1 = a, c2 = a; SU_vector q1 = SU_vector(a) * x, q2 = x * SU_vector(a), q3 = std::move(c1) * x, q4 = x * std::move(c2), q0 = a * x;
@@ -213,10 +264,13 @@ int main(int argc, char** argv) {
       } else if (op == "transpose") {
         SU_vector r = a; r.Transpose();
         expect_vec("Transpose", r, R, SA);
+        range_exact("Transpose", a, [](const SU_vector& v) { SU_vector t = v; t.Transpose(); return t; });
       } else if (op == "real") {
         SU_vector r = a.Real(); expect_vec("Real", r, R, SA);
+        range_exact("Real", a, [](const SU_vector& v) { return v.Real(); });
       } else if (op == "imag") {
         SU_vector r = a.Imag(); expect_vec("Imag", r, R, SA);
+        range_exact("Imag", a, [](const SU_vector& v) { return v.Imag(); });
         SU_vector sum = a.Real() + a.Imag(); expect_same("Real+Imag", sum, a, 0);
       } else if (op == "add") {
         SU_vector r = a + b, r2 = a; r2 += b;
